@@ -181,7 +181,10 @@ class GeminiClient:
 
         # Create protocol instance with normalized URL
         # Per spec: "client SHOULD add trailing '/' for empty paths"
-        protocol = GeminiClientProtocol(parsed.normalized, response_future)
+        # The request is only sent once the certificate has been verified (below)
+        protocol = GeminiClientProtocol(
+            parsed.normalized, response_future, send_on_connect=False
+        )
 
         # Create connection using Protocol/Transport pattern
         try:
@@ -227,6 +230,9 @@ class GeminiClient:
                     elif message == "first_use":
                         # First time seeing this host - trust it
                         self.tofu_db.trust(parsed.hostname, parsed.port, cert)
+
+            # Certificate accepted: now put the request on the wire
+            protocol.send_request()
 
             # Wait for response with timeout
             response: GeminiResponse = await asyncio.wait_for(
@@ -376,7 +382,10 @@ class GeminiClient:
         response_future: asyncio.Future = loop.create_future()
 
         # Create protocol instance
-        protocol = TitanClientProtocol(titan_url, content_bytes, response_future)
+        # The request is only sent once the certificate has been verified (below)
+        protocol = TitanClientProtocol(
+            titan_url, content_bytes, response_future, send_on_connect=False
+        )
 
         # Create connection using Protocol/Transport pattern
         try:
@@ -422,6 +431,9 @@ class GeminiClient:
                     elif message == "first_use":
                         # First time seeing this host - trust it
                         self.tofu_db.trust(parsed.hostname, parsed.port, cert)
+
+            # Certificate accepted: now put the request on the wire
+            protocol.send_request()
 
             # Wait for response with timeout
             response: GeminiResponse = await asyncio.wait_for(
